@@ -18,6 +18,7 @@ from .. import leak
 from ..canon import alias, canon, describe
 
 ID = "C16"
+LEAN = True  # cases are distinct by construction; see engine.Acc
 RULE = (
     "libraries = every sequence of <=3 (quick) / <=4 (thorough) blocks over an 11-block universe (entries a, b, empty key, a second entry a that "
     "becomes a duplicate-key block; strings a, b; preamble; both comment kinds; a failed block; a duplicate-field block) x all 326 ordered "
